@@ -104,7 +104,15 @@ fn perturb(v: &RVal, p: &Pert) -> (RVal, &'static str) {
             }
             RVal::Coord(a, b) => {
                 let (fa, fb) = (f64::from_bits(*a), f64::from_bits(*b));
-                if op % 2 == 0 {
+                if op % 4 == 2 {
+                    // the mirror meridian / parallel: same magnitude, other sign (+180 vs -180 are two values)
+                    if aux % 2 == 0 {
+                        *b = (-fb).to_bits();
+                    } else {
+                        *a = (-fa).to_bits();
+                    }
+                    label = "coord:mirrored";
+                } else if op % 2 == 0 {
                     *a = if fa == 0.0 { (-fa).to_bits() } else { 0f64.to_bits() };
                     label = "coord:lat-zero/sign";
                 } else {
@@ -296,6 +304,8 @@ fn small_record() -> BoxedStrategy<RVal> {
             RVal::Num(x.to_bits(), unit)
         }),
         1 => Just(RVal::Bool(true)),
+        // coordinates on the range ends and on both zeros: +180 / -180 (and +90 / -90) are different values
+        2 => (prop::sample::select(vec![0.0f64, -0.0, 45.0, 90.0, -90.0]), prop::sample::select(vec![180.0f64, -180.0, 0.0, -0.0, 90.0])).prop_map(|(la, lo)| RVal::Coord(la.to_bits(), lo.to_bits())),
     ];
     let name = prop::sample::select(vec!["id", "dis", "equip", "navName", "a", "site", "siteRef", "def", "z"]).prop_map(String::from);
     let dict = prop::collection::btree_map(name, val, 0..5);
